@@ -872,6 +872,48 @@ impl<'r> G<'r> {
             is_function,
             params: vec!["P1%".to_string()],
             body,
+            is_static: false,
+        }
+    }
+
+    /// A STATIC SUB whose body does not read variables: what STATIC does to variables is
+    /// another property's business, the call mechanics (call sites, returns, errors) are not.
+    fn gen_static_sub(&mut self, name: &str) -> Proc {
+        self.in_proc = true;
+        self.in_proc_now = true;
+        let mut body = vec![];
+        let n = 1 + self.rng.below(3);
+        for _ in 0..n {
+            let s = match self.rng.below(4) {
+                0 if self.f.fails => self.fail_stmt(),
+                1 if !self.callable_subs.is_empty() => {
+                    let callee = self.rng.pick(&self.callable_subs).clone();
+                    let a = self.small();
+                    self.st(StmtKind::CallSub {
+                        name: callee,
+                        args: vec![Expr::Int(a)],
+                    })
+                }
+                _ => {
+                    self.trace_no += 1;
+                    let t = format!("T{}", self.trace_no);
+                    self.st(StmtKind::Print {
+                        dev: Dev::Screen,
+                        items: vec![PItem::E(Expr::Str(t))],
+                        using: None,
+                    })
+                }
+            };
+            body.push(s);
+        }
+        self.in_proc = false;
+        self.in_proc_now = false;
+        Proc {
+            name: name.to_string(),
+            is_function: false,
+            params: vec!["P1%".to_string()],
+            body,
+            is_static: true,
         }
     }
 }
@@ -950,7 +992,11 @@ pub fn gen_control_flow(rng: &mut Rng, avoid: &Avoid) -> Scenario {
         let n = 1 + g.rng.below(2);
         for i in (1..=n).rev() {
             let name = format!("S{}", i);
-            let p = g.gen_proc(&name, false);
+            let p = if g.rng.chance(1, 4) {
+                g.gen_static_sub(&name)
+            } else {
+                g.gen_proc(&name, false)
+            };
             g.callable_subs.push(name);
             procs.push(p);
         }
